@@ -12,7 +12,7 @@ from . import c01
 
 PROPERTY = "C19"
 LEVEL = "fault_enumeration"
-TECHNIQUE = "fault injection: generated and enumerated scripts of integrator outcomes fed to a mock CVODE / mock odeint linked with the *unchanged* rendered naunet.cpp (ASan+UBSan); oracle = invariants over the call trace and the final state (the mock's solution y=y0+t measures integrated time)"
+TECHNIQUE = "fault injection: generated and enumerated scripts of integrator outcomes fed to a mock CVODE / mock odeint linked with the *unchanged* rendered naunet.cpp (ASan+UBSan); oracle = invariants over the call trace and the final state (the mock's solution y=y0+t measures integrated time); a third of the CPU cases calls Solve through the rendered Python entry point PyWrapSolve (compiled against a stand-in for pybind11), where an exception is the report of failure"
 RULE = (
     "The rendered src/naunet.cpp (Solve, HandleError, CheckFlag; cvode dense and sparse) and the odeint "
     "Solve/Observer are compiled unchanged with ASan/UBSan against a scripted integrator whose exact solution is "
@@ -88,7 +88,10 @@ def _case(draw, nscripts):
             scripts.append(sc)
     else:
         scripts = [draw(_path()) for _ in range(nscripts)]
-    return {"backend": backend, "net": net, "scripts": scripts, "userfns": draw(st.booleans())}
+    # a third of the CPU cases drives Solve the way Python users do: through the rendered PyWrapSolve (compiled against a
+    # stand-in for pybind11), where an exception is the only report of a failure
+    via_python = backend != "cusparse" and draw(st.integers(0, 2)) == 0
+    return {"backend": backend, "net": net, "scripts": scripts, "userfns": draw(st.booleans()), "via_python": via_python}
 
 
 def strategy(tier):
@@ -149,7 +152,7 @@ def script_text(case, s, neq):
     else:
         lines += [f"cv {f} {float(fr).hex()}" for f, fr in s["cv"]]
         lines += [f"ri {f}" for f in s["ri"]]
-    lines.append("run")
+    lines.append("pyrun" if case.get("via_python") else "run")
     return "\n".join(lines) + "\n"
 
 
@@ -218,7 +221,7 @@ def _judge_cvode(s, b, neq, failures, tag):
         failures.append(("solve/too-many-integrator-calls", f"{desc}: {len(cv_calls)} CVode calls"))
 
 
-def judge_odeint(s, b, neq, failures, tag):
+def judge_odeint(s, b, neq, failures, tag, sfx=""):
     dt = s["dt"]
     ab0 = [float((i + 1) * dt / 1024.0) for i in range(neq)]
     calls = s["steps"] + 1
@@ -226,14 +229,14 @@ def judge_odeint(s, b, neq, failures, tag):
     desc = f"{tag} dt={dt:.6g} mxsteps={s['mxsteps']}{' reset=' + str(s['reset']) if 'reset' in s else ''} steps={s['steps']}"
     if calls > budget_:
         if b["ret"] != 1:
-            failures.append(("solve/odeint-budget-overrun-not-reported", f"{desc}: {calls} observer calls exceed the budget but Solve returned {b['ret']}"))
+            failures.append((f"solve/odeint-budget-overrun-not-reported{sfx}", f"{desc}: {calls} observer calls exceed the budget but Solve returned {b['ret']}"))
     else:
         if b["ret"] != 0:
-            failures.append(("solve/odeint-spurious-failure", f"{desc}: within budget but Solve returned {b['ret']}"))
+            failures.append((f"solve/odeint-spurious-failure{sfx}", f"{desc}: within budget but Solve returned {b['ret']}"))
         else:
             err = max(abs(b["ab"][i] - ab0[i] - dt) for i in range(neq))
             if err > 1e-9 * dt:
-                failures.append(("solve/odeint-wrong-interval", f"{desc}: success but advanced {b['ab'][0] - ab0[0]:.9g} instead of {dt:.9g}"))
+                failures.append((f"solve/odeint-wrong-interval{sfx}", f"{desc}: success but advanced {b['ab'][0] - ab0[0]:.9g} instead of {dt:.9g}"))
 
 
 def check_case(case, tier):
@@ -255,7 +258,9 @@ def check_case(case, tier):
 
             exe = cuda.build_cuda_solve_driver(proj)
         else:
-            exe = build.build_solve_driver(proj)
+            exe = build.build_solve_driver(proj, pymodule=bool(case.get("via_python")))
+        if case.get("via_python"):
+            labels.append("through-the-python-wrapper")
         neq = proj.neq
         text = "".join(script_text(case, s, neq) for s in case["scripts"])
         rc, out, err = build.run_driver(exe, text, proj.path)
@@ -265,11 +270,11 @@ def check_case(case, tier):
         blocks = parse_blocks(out)
         for i, (s, b) in enumerate(zip(case["scripts"], blocks)):
             if solver == "cvode":
-                judge_cvode(s, b, neq, failures, f"{be} script#{i}", sfx="/cusparse" if be == "cusparse" else "")
+                judge_cvode(s, b, neq, failures, f"{be} script#{i}", sfx="/cusparse" if be == "cusparse" else "/python-wrapper" if case.get("via_python") else "")
                 if any(f < 0 for f, _ in s["cv"]):
                     nfault += 1
             else:
-                judge_odeint(s, b, neq, failures, f"{be} script#{i}")
+                judge_odeint(s, b, neq, failures, f"{be} script#{i}", sfx="/python-wrapper" if case.get("via_python") else "")
                 if s["steps"] + 1 > s.get("reset", s["mxsteps"]):
                     nfault += 1
             if len(failures) > 6:
